@@ -634,3 +634,143 @@ func TestVerif_C31_AssembledProofVerifies(t *testing.T) {
 		st.Case(early, desc, growth, enough, shape, fault, "outcome:"+outcome, growth+"/"+enough+"/"+outcome)
 	})
 }
+
+// ---------------------------------------------------------------------------
+// Batches: several proofs are assembled in one process - one after another,
+// as the maintainer does, or from concurrent goroutines - and every returned
+// proof is kept. All proofs are verified only after ALL assemblies finished:
+// a proof must not change or stop verifying because another one was built.
+
+type c31Job struct {
+	chain       *c31Chain
+	sharedChain bool
+	target      Hash
+	block       *c31Block
+	pos         int
+	required    uint
+
+	tx    *Transaction
+	proof *SpvProof
+	err   error
+	// bytes of the result right after its assembly returned
+	snapHeaders, snapMerkle, snapCoinbaseProof, snapTx []byte
+	snapPreimage                                        [32]byte
+	snapIndex                                           uint
+}
+
+func (j *c31Job) run() {
+	j.tx, j.proof, j.err = AssembleSpvProof(j.target, j.required, j.chain)
+	if j.err == nil && j.tx != nil && j.proof != nil {
+		j.snapHeaders = append([]byte{}, j.proof.BitcoinHeaders...)
+		j.snapMerkle = append([]byte{}, j.proof.MerkleProof...)
+		j.snapCoinbaseProof = append([]byte{}, j.proof.CoinbaseProof...)
+		j.snapPreimage = j.proof.CoinbasePreimage
+		j.snapIndex = j.proof.TxIndexInBlock
+		j.snapTx = c31TxNoWitness(j.tx)
+	}
+}
+
+func c31GenJob(t *rapid.T, previous []*c31Job, allowShared bool) *c31Job {
+	j := &c31Job{}
+	if allowShared && len(previous) > 0 && rapid.IntRange(0, 2).Draw(t, "sameChain") == 0 {
+		// another transaction of a chain already used by this batch
+		j.chain = previous[rapid.IntRange(0, len(previous)-1).Draw(t, "chainOf")].chain
+		j.sharedChain = true
+	} else {
+		j.chain = c31GenChain(t)
+		// mostly quiet chains (the batch is about the proofs that ARE returned);
+		// growth mostly after the height query, rarely a failing query
+		if rapid.IntRange(0, 2).Draw(t, "grows") == 0 {
+			after := rapid.OneOf(rapid.IntRange(3, 12), rapid.IntRange(1, 2)).Draw(t, "afterQuery")
+			j.chain.plan = append(j.chain.plan, c31Growth{afterQuery: after, blocks: rapid.IntRange(1, 3).Draw(t, "minedBlocks")})
+		}
+		if rapid.IntRange(0, 7).Draw(t, "withFault") == 7 {
+			j.chain.faultKind = rapid.SampledFrom([]string{"header", "merkle", "coinbase", "tx"}).Draw(t, "faultKind")
+			j.chain.faultNth = rapid.IntRange(1, 2).Draw(t, "faultNth")
+		}
+	}
+	c := j.chain
+	depth := rapid.OneOf(rapid.IntRange(0, min(8, c.visible-1)), rapid.IntRange(0, c.visible-1)).Draw(t, "depth")
+	j.block = c.blocks[c.visible-1-depth]
+	n := len(j.block.txids)
+	j.pos = rapid.OneOf(rapid.SampledFrom([]int{n - 1, 0, n / 2}), rapid.IntRange(0, n-1)).Draw(t, "position")
+	j.target = j.block.txids[j.pos]
+	confirmations := int(c.tip().height - j.block.height + 1)
+	// different lengths of the headers chain within one batch, mostly satisfiable
+	j.required = uint(rapid.OneOf(
+		rapid.IntRange(1, confirmations),
+		rapid.SampledFrom([]int{confirmations, 1, min(6, confirmations), confirmations + 1}),
+	).Draw(t, "required"))
+	return j
+}
+
+func TestVerif_C31_BatchedProofsStayValid(t *testing.T) {
+	st := verifkit.New("C31", "TestVerif_C31_BatchedProofsStayValid")
+	defer st.Flush()
+	rapid.Check(t, func(t *rapid.T) {
+		mode := rapid.SampledFrom([]string{"sequential", "concurrent", "sequential"}).Draw(t, "mode")
+		nJobs := rapid.IntRange(2, 4).Draw(t, "assemblies")
+		var jobs []*c31Job
+		for i := 0; i < nJobs; i++ {
+			// a chain double is driven by one assembly at a time: chains are
+			// shared between the jobs of a batch only in the sequential mode
+			jobs = append(jobs, c31GenJob(t, jobs, mode == "sequential"))
+		}
+		if mode == "sequential" {
+			for _, j := range jobs {
+				j.run()
+			}
+		} else {
+			start := make(chan struct{})
+			done := make(chan struct{}, len(jobs))
+			for _, j := range jobs {
+				go func(j *c31Job) {
+					<-start
+					j.run()
+					done <- struct{}{}
+				}(j)
+			}
+			close(start)
+			for range jobs {
+				<-done
+			}
+		}
+
+		// only now look at the results
+		proofs := 0
+		var parts []string
+		for i, j := range jobs {
+			what := fmt.Sprintf("assembly %d of %d (%s; block height %d, position %d of %d, required %d)", i+1, len(jobs), mode, j.block.height, j.pos, len(j.block.txids), j.required)
+			if j.err != nil {
+				parts = append(parts, fmt.Sprintf("h%d[%d/%d]r%d:error", j.block.height, j.pos, len(j.block.txids), j.required))
+				continue
+			}
+			proofs++
+			parts = append(parts, fmt.Sprintf("h%d[%d/%d]r%d:proof", j.block.height, j.pos, len(j.block.txids), j.required))
+			if j.tx == nil || j.proof == nil {
+				t.Fatalf("%s: neither an error nor a transaction and a proof", what)
+			}
+			switch {
+			case !bytes.Equal(j.proof.BitcoinHeaders, j.snapHeaders):
+				t.Fatalf("%s: the headers of the returned proof changed after the assembly returned (another assembly ran in between)\n at return %x\n now       %x", what, j.snapHeaders, j.proof.BitcoinHeaders)
+			case !bytes.Equal(j.proof.MerkleProof, j.snapMerkle):
+				t.Fatalf("%s: the Merkle proof changed after the assembly returned", what)
+			case !bytes.Equal(j.proof.CoinbaseProof, j.snapCoinbaseProof):
+				t.Fatalf("%s: the coinbase proof changed after the assembly returned", what)
+			case j.proof.CoinbasePreimage != j.snapPreimage || j.proof.TxIndexInBlock != j.snapIndex:
+				t.Fatalf("%s: coinbase preimage / position changed after the assembly returned", what)
+			case !bytes.Equal(c31TxNoWitness(j.tx), j.snapTx):
+				t.Fatalf("%s: the returned transaction changed after the assembly returned", what)
+			}
+			if verr := c31Verify(j.target, j.required, j.tx, j.proof, j.block, j.pos, j.chain); verr != nil {
+				t.Fatalf("%s: after all assemblies of the batch finished the proof is rejected by the verifier: %v", what, verr)
+			}
+		}
+		shared := false
+		for _, j := range jobs {
+			shared = shared || j.sharedChain
+		}
+		st.Case(proofs >= 2, fmt.Sprintf("%s %s", mode, strings.Join(parts, " ")),
+			"mode:"+mode, fmt.Sprintf("assemblies:%d", len(jobs)), fmt.Sprintf("proofs:%d", proofs), fmt.Sprintf("shared-chain:%v", shared))
+	})
+}
